@@ -11,6 +11,19 @@ def run(prog, rec, tier):
     A.block('dec')
     A.key_load()
     A.ownership()
+    # the block functions work in per-object scratch: the claim holds for an object only while one thread at a time uses it.
+    # Each worker gets its own stream object (R02.d, for every T) and two streams share no mutable storage (R03.c).
+    from .driver_rules import DriverRules
+    from .mode_rules import ModeRules
+    mine = [o for o in rec.obls]
+    try:
+        D = DriverRules(prog, rec, tier)
+        D.layout()
+        D.reader()
+        ModeRules(prog, rec).isolation()
+    finally:
+        rec.obls = mine + [o for o in rec.obls if o not in mine and o.rule in ('R02.d', 'R03.c')]
+        rec.instances = {k: v for k, v in rec.instances.items() if k.startswith(('R09', 'R02.d', 'R03.c'))}
     rec.extra['explanation'] = (
         'Tier 1: the five constant tables equal values derived from first principles (GF(2^8) inverse + affine map, its inverse '
         'permutation, discrete log/antilog base 3 with the doubled antilog range, round constants). Tier 2: the key-schedule '
